@@ -17,30 +17,42 @@ def resolve(relpath: str, qualname: str):
 
 def run_contract(contract: dict, inputs: dict, fn=None):
     """-> dict(outcome='pass'|'fail'|'pre-false'|'spec-error', failed=[...], detail=...)
-    inputs: name -> python value (params and ghost params)."""
+    inputs: name -> real python value (params and ghost params).  Contract expressions see records through
+    proxies (pyvc.concrete.view); old(...) refers to proxies taken before the call."""
+    from specs import PREDICATES
+    from .concrete import view, input_arrays
     fn = fn or resolve(contract['relpath'], contract['qualname'])
-    b = dict(inputs)
+    inputs = dict(inputs)
+    for k, src in contract.get('concrete_defaults', {}).items():
+        if k not in inputs:
+            inputs[k] = eval(src)
+    ins = input_arrays(list(inputs.values()))
+    b_old = {k: view(v, ()) for k, v in inputs.items()}
+
+    def cev(expr, b, old=None):
+        return ceval(expr, b, old_bindings=old, predicates=PREDICATES)
     try:
         for r in contract.get('requires_concrete', contract.get('requires', [])):
-            if not ceval(r, b):
+            if not cev(r, b_old):
                 return dict(outcome='pre-false', failed=[r])
     except Exception as e:
         return dict(outcome='spec-error', detail=f'requires: {e!r}')
-    order = [n for n in contract.get('order', []) if n not in ('self', 'cls')]
-    args = [inputs[n] for n in order if n in inputs]
-    old = dict(b)
+    order = list(contract.get('order', []))
+    args = [inputs[n] for n in order if n in inputs and n != 'cls']
     failed = []
     raised = None
+    b = None
     try:
         out = fn(*args)
         if contract.get('is_generator') or inspect.isgenerator(out):
+            b = {k: view(v, ins) for k, v in inputs.items()}
             for src in contract.get('ghost_init', []):
                 cexec(src, b)
             ys = []
             for y in out:
-                b['result'] = y
+                b['result'] = view(y, ins)
                 for e in contract.get('at_yield_concrete', contract.get('at_yield', [])):
-                    if not ceval(e, b):
+                    if not cev(e, b, b_old):
                         failed.append(f'at_yield: {e}  [yield #{len(ys)} = {y!r}]')
                 for src in contract.get('yield_update', []):
                     cexec(src, b)
@@ -50,7 +62,8 @@ def run_contract(contract: dict, inputs: dict, fn=None):
             posts = contract.get('at_exit_concrete', contract.get('at_exit', []))
             out = ys
         else:
-            b['result'] = out
+            b = {k: view(v, ins) for k, v in inputs.items()}
+            b['result'] = view(out, ins)
             posts = contract.get('ensures_concrete', contract.get('ensures', []))
     except Exception as e:
         raised = type(e).__name__
@@ -59,17 +72,26 @@ def run_contract(contract: dict, inputs: dict, fn=None):
         for name, cnd in allowed.items():
             if name == raised or any(c.__name__ == name for c in type(e).__mro__):
                 try:
-                    ok = True if cnd is True else bool(ceval(cnd, old))
+                    ok = True if (cnd is True or cnd == 'maybe' or isinstance(cnd, tuple)) else bool(cev(cnd, b_old))
                 except Exception as e2:
                     return dict(outcome='spec-error', detail=f'raises cond: {e2!r}')
                 break
-        if ok:
-            return dict(outcome='pass', raised=raised)
-        return dict(outcome='fail', failed=[f'raised {raised}: {e}'], raised=raised,
-                    detail=traceback.format_exc(limit=3))
+        if not ok:
+            return dict(outcome='fail', failed=[f'raised {raised}: {e}'], raised=raised,
+                        detail=traceback.format_exc(limit=3))
+        b = {k: view(v, ins) for k, v in inputs.items()}
+        try:
+            for e2 in contract.get('raise_ensures', []):
+                if not cev(e2, b, b_old):
+                    failed.append(f'after {raised}: {e2}')
+        except Exception as e3:
+            return dict(outcome='spec-error', detail=f'raise_ensures: {e3!r}')
+        if failed:
+            return dict(outcome='fail', failed=failed, raised=raised)
+        return dict(outcome='pass', raised=raised)
     try:
         for e in posts:
-            if not ceval(e, b):
+            if not cev(e, b, b_old):
                 failed.append(e)
     except Exception as e2:
         return dict(outcome='spec-error', detail=f'ensures: {e2!r} in {e}')
@@ -79,7 +101,11 @@ def run_contract(contract: dict, inputs: dict, fn=None):
 
 
 def replay_model(contract: dict, model: dict):
-    inputs = {k: decode(v) for k, v in model.items()}
+    from .concrete import build, DtypeMap
+    dm = DtypeMap()
+    inputs = {k: build(decode(v), dm) for k, v in model.items()}
+    from .concrete import view
+    shown = {k: repr(view(v, ()))[:300] for k, v in inputs.items()}      # proxies: safe repr of the entry state
     r = run_contract(contract, inputs)
-    r['inputs'] = {k: repr(v) for k, v in inputs.items()}
+    r['inputs'] = shown
     return r
